@@ -250,3 +250,5 @@ def _cond_func_line_in(ctx, add, cond):
     lo = fi.node.lineno
     hi = getattr(fi.node, "end_lineno", lo)
     return lo <= cond[2][1] <= hi
+
+EXPLANATION += ' Batch 6: columns that receive client text must have TEXT or no affinity (what is replayed is what was stored).'
